@@ -31,10 +31,11 @@ const (
 	qResolveShared
 	qAdvance
 	qTouchData
+	qBurst // a burst of G events with ids nobody has seen, resolved against the process-wide caches
 	nQOps
 )
 
-var qopNames = []string{"CoalesceMessages", "ResolveIDsFromCaches(fresh)", "ResolveIDs(global caches)", "ResolveIDsFromCaches(task caches)", "advance-clock", "Data/Tags/ToMapStr"}
+var qopNames = []string{"CoalesceMessages", "ResolveIDsFromCaches(fresh)", "ResolveIDs(global caches)", "ResolveIDsFromCaches(task caches)", "advance-clock", "Data/Tags/ToMapStr", "burst-of-unseen-ids"}
 
 // QOp is one operation of a task on its own groups / events.
 type QOp struct {
@@ -55,12 +56,18 @@ type QPlan struct {
 	// processes handle the groups one after the other, the first in the order
 	// given and the second in reverse order, and what they return for each
 	// group is compared. IsoOrder is the order a child works in.
+	// Hard: user 12345 and group 12345 are given names with HardcodeUsers /
+	// HardcodeGroups before the tasks start (the package-level caches only).
+	Hard     bool  `json:"hardcode,omitempty"`
 	Iso      bool  `json:"iso,omitempty"`
 	IsoOrder []int `json:"iso_order,omitempty" shrink:"-"`
 }
 
 func (p *QPlan) Valid() bool {
 	if len(p.Groups) > 40 || len(p.Tasks) > 4 || len(p.Tasks) == 0 {
+		return false
+	}
+	if p.Iso && p.Hard {
 		return false
 	}
 	if p.Iso && (len(p.Tasks) != 1 || len(p.Tasks[0]) != 0 || len(p.Tape) != 0 || len(p.Groups) < 2 || len(p.Groups) > 8 || p.Inner || p.Strategy != 0) {
@@ -81,7 +88,7 @@ func (p *QPlan) Valid() bool {
 			return false
 		}
 		for _, o := range t {
-			if o.K < 0 || o.K >= nQOps || o.G < 0 || o.G > 64 || o.D < 0 || o.D > 3600e9 {
+			if o.K < 0 || o.K >= nQOps || o.G < 0 || (o.G > 64 && o.K != qBurst) || o.G > 300 || o.D < 0 || o.D > 3600e9 {
 				return false
 			}
 		}
@@ -267,6 +274,7 @@ func (r QRec) line(seq uint32) (auparse.AuditMessageType, string) {
 // user-space records), so that the library's first-use paths run concurrently.
 func GenQPlanFirst(r *core.Rng) *QPlan {
 	p := GenQPlan(r)
+	p.Hard, p.Iso = false, false
 	nt := r.Range(2, 3)
 	p.Groups = nil
 	for g := 0; g < 2*nt; g++ {
@@ -403,6 +411,23 @@ func GenQPlan(r *core.Rng) *QPlan {
 	}
 	p.Strategy = r.Intn(2)
 	p.Inner = nt >= 2 && r.Chance(1, 2)
+	if r.Chance(1, 8) {
+		// names injected with HardcodeUsers / HardcodeGroups; a group whose uid is the injected one
+		p.Hard = true
+		p.Groups = append(p.Groups, []QRec{{Tmpl: 0, Var: 7<<13 | uint32(r.Intn(1<<11))}})
+		gi := (len(p.Groups) - 1) / nt // its index among the owner's groups
+		t := (len(p.Groups) - 1) % nt
+		ops := []QOp{{K: qCoalesce, G: gi}, {K: qResolveGlobal, G: 63}}
+		if r.Chance(1, 10) {
+			// many events with ids nobody has seen pass through the process-wide tables in between
+			ops = append(ops, QOp{K: qBurst, G: core.Pick(r, 30, 60, 60, 250)})
+		}
+		ops = append(ops, QOp{K: qCoalesce, G: gi}, QOp{K: qResolveGlobal, G: 63}, QOp{K: qResolveGlobal, G: 62})
+		p.Tasks[t] = append(p.Tasks[t], ops...)
+		if len(p.Tasks[t]) > 40 {
+			p.Tasks[t] = p.Tasks[t][len(p.Tasks[t])-40:]
+		}
+	}
 	return p
 }
 
@@ -421,11 +446,13 @@ const (
 	qpLockBlocked
 	qpLazyFirstRun
 	qpIsoTwins
+	qpHardcoded
+	qpBurst
 	nQProbes
 )
 
 var qProbeNames = []string{"same_messages_coalesced_again", "resolution_after_clock_advance", "coalesce_returned_error", "event_with_warnings",
-	"execve_args_extracted", "event_with_paths", "first_Data_call_inside_coalesce", "ids_resolved_to_names", "two_or_more_tasks", "ecs_category_merged_from_syscall_norm", "garbage_group", "task_blocked_on_cache_lock", "first_run_of_process_without_warm_up", "isolation_twins_two_fresh_processes_two_orders"}
+	"execve_args_extracted", "event_with_paths", "first_Data_call_inside_coalesce", "ids_resolved_to_names", "two_or_more_tasks", "ecs_category_merged_from_syscall_norm", "garbage_group", "task_blocked_on_cache_lock", "first_run_of_process_without_warm_up", "isolation_twins_two_fresh_processes_two_orders", "names_injected_with_HardcodeUsers", "burst_of_300_to_2500_unseen_ids_through_the_global_caches"}
 
 var qFaultNames = []string{"cache_expiry_clock_jump", "repeated_call_on_same_input", "concurrent_tasks", "malformed_records"}
 
@@ -452,36 +479,57 @@ func initNameRefs() {
 	}
 }
 
-// checkNames compares every name the library attached to an id with the
-// answer of the user / group database for that id.
-func checkNames(ev *aucoalesce.Event) string {
+// checkNames compares, after an event's ids were resolved, the name attached
+// to every id with the answer of the user / group database for that id (hard:
+// with the names injected into the process-wide caches for user / group 12345).
+func checkNames(ev *aucoalesce.Event, hard bool) string {
 	if ev == nil {
 		return ""
 	}
-	for k, name := range ev.User.Names {
-		id := ev.User.IDs[k]
+	for k, id := range ev.User.IDs {
+		name := ev.User.Names[k]
 		var want string
 		var ok bool
 		switch {
 		case strings.HasSuffix(k, "uid"):
 			want, ok = refUserName[id]
+			if hard && id == hardID {
+				want, ok = hardUser, true
+			}
 		case strings.HasSuffix(k, "gid"):
 			want, ok = refGroupName[id]
+			if hard && id == hardID {
+				want, ok = hardGroup, true
+			}
 		}
 		if ok && name != want {
 			return fmt.Sprintf("user.names[%s] = %q for id %s, the %s database says %q", k, name, id, map[bool]string{true: "user", false: "group"}[strings.HasSuffix(k, "uid")], want)
 		}
 	}
 	if ev.File != nil {
-		if want, ok := refUserName[ev.File.UID]; ok && ev.File.UID != "" && ev.File.Owner != want {
+		want, ok := refUserName[ev.File.UID]
+		if hard && ev.File.UID == hardID {
+			want, ok = hardUser, true
+		}
+		if ok && ev.File.UID != "" && ev.File.Owner != want {
 			return fmt.Sprintf("file.owner = %q for uid %s, the user database says %q", ev.File.Owner, ev.File.UID, want)
 		}
-		if want, ok := refGroupName[ev.File.GID]; ok && ev.File.GID != "" && ev.File.Group != want {
+		want, ok = refGroupName[ev.File.GID]
+		if hard && ev.File.GID == hardID {
+			want, ok = hardGroup, true
+		}
+		if ok && ev.File.GID != "" && ev.File.Group != want {
 			return fmt.Sprintf("file.group = %q for gid %s, the group database says %q", ev.File.Group, ev.File.GID, want)
 		}
 	}
 	return ""
 }
+
+const (
+	hardID    = "12345"
+	hardUser  = "hard-u"
+	hardGroup = "hard-g"
+)
 
 // canonical forms -----------------------------------------------------------
 
@@ -561,11 +609,12 @@ type qGroup struct {
 }
 
 type qEvent struct {
-	ev       *aucoalesce.Event
-	err      error
-	g        int
-	snapshot string
-	resolved bool
+	ev         *aucoalesce.Event
+	err        error
+	g          int
+	snapshot   string
+	resolved   bool
+	globalSnap string // Hard runs: the event as resolved against the process-wide caches
 }
 
 const (
@@ -710,6 +759,11 @@ func ExecQPlan(p *QPlan, trace bool) *core.Result {
 	// ---- setup, in the driver goroutine, before any task exists ----
 	resetCoalesceGlobals()
 	initNameRefs()
+	if p.Hard {
+		aucoalesce.HardcodeUsers(user.User{Uid: hardID, Username: hardUser})
+		aucoalesce.HardcodeGroups(user.Group{Gid: hardID, Name: hardGroup})
+		res.Probes[qpHardcoded]++
+	}
 	// In the first run of a process nothing of the library's parsing and
 	// coalescing code is executed before the tasks exist, so that whatever the
 	// library initialises on first use is initialised by concurrent tasks;
@@ -866,6 +920,11 @@ func ExecQPlan(p *QPlan, trace bool) *core.Result {
 						continue
 					}
 					e := events[op.G%len(events)]
+					if op.G == 63 {
+						e = events[len(events)-1] // the event coalesced last
+					} else if op.G == 62 && len(events) >= 2 {
+						e = events[len(events)-2]
+					}
 					pan := ""
 					func() {
 						defer func() {
@@ -886,14 +945,27 @@ func ExecQPlan(p *QPlan, trace bool) *core.Result {
 						viol("panic", "ResolveIDs", "ID resolution panicked: "+pan)
 						continue
 					}
-					if bad := checkNames(e.ev); bad != "" {
+					hardG := p.Hard && op.K == qResolveGlobal
+					if p.Hard && !hardG && e.globalSnap != "" {
+						// resolved with the injected names before; names that another cache does not
+						// know are left in place by design (only a non-empty answer replaces a name)
+					} else if bad := checkNames(e.ev, hardG); bad != "" {
 						viol("resolved-name-wrong", qopNames[op.K], fmt.Sprintf("%s on an event of group %d (task %d op %d): %s", qopNames[op.K], e.g, ti, oi, bad))
 					}
 					if advanced {
 						h.Rec(evQOp, int64(oi), -2, 0, 0, "")
 					}
 					got := canonEvent(e.ev, e.err)
-					if lazy {
+					if hardG {
+						// the reference (fresh caches) does not know the injected names: the
+						// event is compared with its own earlier resolution against these caches
+						if e.globalSnap != "" && got != e.globalSnap {
+							viol("resolve-not-repeatable", qopNames[op.K], fmt.Sprintf("%s on an event of group %d (task %d op %d) gave\n  %s\nthe same call on the same event gave earlier\n  %s", qopNames[op.K], e.g, ti, oi, got, e.globalSnap))
+						}
+						e.globalSnap = got
+					} else if p.Hard && e.globalSnap != "" {
+						// resolved with the injected names before: other caches answer differently, by design
+					} else if lazy {
 						h.Rec(evQGot, int64(e.g), int64(oi), 1, 0, got)
 					} else if got != groups[e.g].refRes {
 						viol("resolve-outcome", qopNames[op.K], fmt.Sprintf("%s on an event of group %d (task %d op %d, clock advanced before: %v) gave\n  %s\nresolving the same event in isolation gives\n  %s", qopNames[op.K], e.g, ti, oi, advanced, got, groups[e.g].refRes))
@@ -903,6 +975,23 @@ func ExecQPlan(p *QPlan, trace bool) *core.Result {
 				case qAdvance:
 					t.Sleep(time.Duration(op.D))
 					advanced = true
+				case qBurst:
+					for j := 0; j < op.G; j++ {
+						b := 20000 + ti*100000 + oi*3000 + j*10
+						line := fmt.Sprintf(`audit(1490137971.000:%d): arch=c000003e syscall=2 success=yes exit=0 items=0 ppid=1 pid=2 auid=%d uid=%d gid=%d euid=%d suid=%d fsuid=%d egid=%d sgid=%d fsgid=%d tty=pts0 ses=1 comm="x" exe="/x"`,
+							900000+j, b, b+1, b+2, b+3, b+4, b+5, b+6, b+7, b+8)
+						m, perr := auparse.Parse(tSYSCALL, line)
+						if perr != nil {
+							continue
+						}
+						if ev, _, pan := safeCoalesce([]*auparse.AuditMessage{m}); pan == "" && ev != nil {
+							func() {
+								defer func() { recover() }()
+								aucoalesce.ResolveIDs(ev)
+							}()
+						}
+					}
+					h.Rec(evQOp, int64(oi), -3, int64(op.G), 0, "")
 				case qTouchData:
 					if len(own) == 0 {
 						continue
@@ -981,6 +1070,10 @@ func ExecQPlan(p *QPlan, trace bool) *core.Result {
 			}
 			if e.B == -2 {
 				res.Probes[qpResolveAfterExpiry]++
+				continue
+			}
+			if e.B == -3 {
+				res.Probes[qpBurst]++
 				continue
 			}
 			nops++
